@@ -7,6 +7,7 @@ pub mod wire;
 pub mod harness;
 pub mod refsrv;
 pub mod scen;
+pub mod cli;
 
 #[global_allocator]
 static GLOBAL: alloc::Meter = alloc::Meter;
